@@ -791,10 +791,18 @@ def build_all(chk):
     with ThreadPoolExecutor(len(jobs)) as ex:
         futs = {k: ex.submit(f) for k, f in jobs.items()}
         for k, f in futs.items():
-            b, l = f.result()
-            if b is None:
-                chk.broke("implementation harness %s does not compile against /repo" % k, l)
-            exes[k] = b
+            exes[k] = f.result()
+    for k in jobs:
+        b, l = exes[k]
+        for attempt in range(3):
+            # the shared library cache is pruned by concurrent runs of other checks: a library that vanished between
+            # its build and the link step is rebuilt
+            if b is not None and os.path.exists(b) or "libgivaro_verif.a" not in (l or ""):
+                break
+            b, l = jobs[k]()
+        if b is None:
+            chk.broke("implementation harness %s does not compile against /repo" % k, l)
+        exes[k] = b
     return exes
 
 
